@@ -626,6 +626,15 @@ def run(rep: common.Report):
     rep.crosschecks.append(cc)
     if not cc["ok"]:
         rep.error(f"assumed-contract cross-check failed: {cc['name']}: {cc['failures']}")
+    # translation validation of the executor: the real codec bodies run on CONCRETE values must give CPython's results
+    try:
+        from vc.fin import engine_vs_cpython
+        cc2 = engine_vs_cpython.run(make_engine, fn, value_obj, rep.seed, 40 if rep.tier == "quick" else 400)
+        rep.crosschecks.append(cc2)
+        if not cc2["ok"]:
+            rep.error(f"the executor disagrees with CPython on concrete values: {cc2['failures']}")
+    except Exception as e:  # noqa
+        rep.error(f"executor-vs-CPython cross-check crashed: {e!r}")
     b = Bounded("C03.bnd.codecs", "prop: all value classes (real)", C03_bnd.BOUND[rep.tier])
     t0 = time.time()
     try:
